@@ -10,7 +10,6 @@ var (
 	errPathNotFound = errors.New("path does not exist")
 	setJSONOptions  = &sjson.Options{
 		Optimistic:     true,
-		ReplaceInPlace: true,
 	}
 )
 
